@@ -171,6 +171,9 @@ Definition is_candidate_b (data : list Qc) (h : height) (i : nat) : bool :=
 
 Definition mem (i : nat) (l : list nat) : bool := existsb (Nat.eqb i) l.
 
+Fixpoint exists_lazy {A} (f : A -> bool) (l : list A) : bool :=
+  match l with [] => false | x :: t => if f x then true else exists_lazy f t end.
+
 (* the property clauses, evaluated on the OBSERVED result [obs] of a call with distance d; cf = candidate flags *)
 Definition pk_clauses (data : list Qc) (cf : list bool) (d : nat) (obs : list nat) : bool :=
   let n := length data in
@@ -179,15 +182,19 @@ Definition pk_clauses (data : list Qc) (cf : list bool) (d : nat) (obs : list na
   forallb isc obs
   (* ascending, pairwise at least d apart *)
   && sorted_sep d obs
-  (* every dropped candidate is dominated by another candidate closer than d  (if-then-else: evaluated lazily) *)
-  && forallb (fun i => if isc i then
-                         if mem i obs then true
-                         else existsb (fun j => if isc j then
-                                                  if j =? i then false
-                                                  else if adist i j <? d then qle_b (dat data i) (dat data j) else false
-                                                else false) (seq 0 n)
-                       else true)
-             (seq 0 n).
+  (* every dropped candidate is dominated by another candidate closer than d.  Only the positions i-d+1 .. i+d-1 can
+     qualify, so only that slice of the rows (index, candidate flag, value) is searched (lazily): O(len + d) per candidate *)
+  && (let rows := combine (seq 0 n) (combine cf data) in
+      forallb (fun i => if isc i then
+                          if mem i obs then true
+                          else let vi := dat data i in
+                               exists_lazy (fun r : nat * (bool * Qc) => if fst (snd r) then
+                                                       if fst r =? i then false
+                                                       else if adist i (fst r) <? d then qle_b vi (snd (snd r)) else false
+                                                     else false)
+                                           (firstn (2 * d - 1) (skipn (i + 1 - d) rows))
+                        else true)
+              (seq 0 n)).
 
 (* all the calls with one height.  PROPERTY level: only the clauses of the property, on the observed result
    (candidates only; ascending and >= d apart; every dropped candidate dominated - hence isolated maxima kept) *)
@@ -306,3 +313,31 @@ Definition fw_expected (c : fw_case) : list (direction * Z * zwmode * list (nat 
   map (fun q => (fq_dir q, fq_thr q, fq_mode q,
                  find_width_spec data (fq_dir q) (qcz (fq_thr q)) (wmode_of (fq_mode q)), fq_obs q))
       (filter (fun q => negb (fw_query_check data q)) (fw_queries c ++ fw_grid_queries c)).
+
+(* ================================================================ count / size boundaries (255 .. 4097)
+   Large signals are given as blocks (pattern, repetitions) - run-length encoding and periodic signals - and the
+   returned indices / rows as arithmetic progressions (first, step, count); both are expanded here. *)
+Definition expandb {A} (l : list (list A * N)) : list A := flat_map (fun p => concat (repeat (fst p) (N.to_nat (snd p)))) l.
+Definition progression (s st cnt : N) : list nat := map (fun k => N.to_nat (s + st * N.of_nat k)) (seq 0 (N.to_nat cnt)).
+Definition progressions (l : list (N * N * N)) : list nat := flat_map (fun p => progression (fst (fst p)) (snd (fst p)) (snd p)) l.
+
+Record pk_lquery := pklq { lq_d : N; lq_h : zheight; lq_obs : list (N * N * N) }.
+Record pk_large := { pkl_data : list (list Z * N); pkl_queries : list pk_lquery }.
+Definition pk_of_large (c : pk_large) : pk_case :=
+  {| pk_data := expandb (pkl_data c);
+     pk_queries := map (fun q => pkq (N.to_nat (lq_d q)) (lq_h q) (progressions (lq_obs q))) (pkl_queries c);
+     pk_hs := []; pk_nd := 0; pk_masks := [] |}.
+Definition pk_large_check (c : pk_large) : bool := pk_check (pk_of_large c).      (* property clauses *)
+Definition pk_large_corr (c : pk_large) : bool := pk_corr (pk_of_large c).        (* equality with the model scan *)
+
+(* rows (s + k*st, e + k*st), k < cnt *)
+Record fw_lquery := fwlq { flq_dir : direction; flq_thr : Z; flq_mode : zwmode; flq_obs : list (N * N * N * N) }.
+Record fw_large := { fwl_data : list (list Z * N); fwl_queries : list fw_lquery }.
+Definition row_progressions (l : list (N * N * N * N)) : list (nat * nat) :=
+  flat_map (fun p => let '(s, e, st, cnt) := p in combine (progression s st cnt) (progression e st cnt)) l.
+(* compared with the gap construction [find_width], which IS the set of bracketed maximal runs for every input
+   (Props/C19.width_is_maximal_runs); the brute-force enumeration of all (s, e) is cubic and only used on short signals *)
+Definition fw_large_check (c : fw_large) : bool :=
+  let data := map qcz (expandb (fwl_data c)) in
+  forallb (fun q => list_eqb pair_eqb (find_width data (flq_dir q) (qcz (flq_thr q)) (wmode_of (flq_mode q)))
+                             (row_progressions (flq_obs q))) (fwl_queries c).
